@@ -262,6 +262,8 @@ class Interp(ExprMixin):
         sub = State()
         sub.env = dict(bound)
         sub.heap = st.heap
+        sub.conds = list(st.conds)          # what the caller already established decides repeated tests in the callee
+        n_conds = len(st.conds)
         depth_events = len(st.events)
         sub.events = st.events
         self_v = bound.get('self')
@@ -285,7 +287,7 @@ class Interp(ExprMixin):
         st.heap = p.state.heap
         if p.state.events is not st.events:
             st.events[depth_events:] = p.state.events[depth_events:]
-        for c in p.state.conds:
+        for c in p.state.conds[n_conds:]:
             st.conds.append(c)
         for lp in p.state.loops:
             if lp not in st.loops:
@@ -875,10 +877,23 @@ class Interp(ExprMixin):
                 or any(k.arg is None for k in s.iter.keywords):
             return None
         d = dotted(s.iter.func)
-        if d is None or d.split('.')[0] in st.env:
+        receiver = None
+        if d is None:
             return None
-        tgt = self.repo.resolve_name(self.cur.module, d)
-        if not isinstance(tgt, FuncInfo) or tgt.cls is not None or tgt.key in self.stack or tgt.is_cached \
+        if d.split('.')[0] in st.env:
+            # obj.method(...) with obj of a known class of the package
+            if not (isinstance(s.iter.func, ast.Attribute) and isinstance(s.iter.func.value, ast.Name)):
+                return None
+            cls = self.class_of(st.env[s.iter.func.value.id])
+            tgt = cls.find_method(s.iter.func.attr) if cls is not None else None
+            if tgt is None or tgt.is_static or tgt.is_property:
+                return None
+            receiver = s.iter.func.value
+        else:
+            tgt = self.repo.resolve_name(self.cur.module, d)
+            if isinstance(tgt, FuncInfo) and tgt.cls is not None:
+                return None
+        if not isinstance(tgt, FuncInfo) or tgt.key in self.stack or tgt.is_cached \
                 or (tgt.key in known_functions() and tgt.key not in self.inline_set):
             return None
         fn = tgt.node
@@ -908,7 +923,7 @@ class Interp(ExprMixin):
             return None
         # bind the parameters
         params = tgt.params()
-        if any(k in ('vararg', 'kwarg') for _, _, k in params) or len(s.iter.args) > len(params):
+        if any(k in ('vararg', 'kwarg') for _, _, k in params) or len(s.iter.args) + (1 if receiver is not None else 0) > len(params):
             return None
         pre = f'__{tgt.name.strip("_")}_'
         local = {n for n, _, _ in params} | set(assigned_names(fn.body))
@@ -926,7 +941,11 @@ class Interp(ExprMixin):
         import copy as _copy
         out = []
         given = {}
-        for (name, default, kind), a in zip(params, s.iter.args):
+        pos_params = list(params)
+        if receiver is not None:
+            given[params[0][0]] = receiver
+            pos_params = params[1:]
+        for (name, default, kind), a in zip(pos_params, s.iter.args):
             given[name] = a
         for k in s.iter.keywords:
             if k.arg not in {n for n, _, _ in params} or k.arg in given:
